@@ -57,13 +57,13 @@ package tchannel
 //@   property C13
 //@ func (m *errorMessage) messageType() (t messageType)
 //@   ensures t == messageTypeError
-//@   property C13
+//@   property C13 C20
 //@ func (m *initMessage) ID() (id uint32)
 //@   ensures id == m.id
 //@   property C13
 //@ func (m *errorMessage) ID() (id uint32)
 //@   ensures id == m.id
-//@   property C13
+//@   property C13 C20
 
 // Frame.write: header type/id and the first payload word are the message's.
 //@ func (f *Frame) write(msg message) (err error)
@@ -73,7 +73,15 @@ package tchannel
 //@   ensures err == nil && istype(msg, *initReq) ==> f.Header.messageType == messageTypeInitReq && f.Header.ID == msg.(*initReq).id && be16(f.Payload, 0) == msg.(*initReq).Version
 //@   ensures err == nil && istype(msg, *initRes) ==> f.Header.messageType == messageTypeInitRes && f.Header.ID == msg.(*initRes).id && be16(f.Payload, 0) == msg.(*initRes).Version
 //@   ensures err == nil && istype(msg, *errorMessage) ==> f.Header.messageType == messageTypeError && f.Header.ID == msg.(*errorMessage).id && u8at(f.Payload, 0) == msg.(*errorMessage).errCode
-//@   property C13
+// (C20) an error message is encoded whole or not at all: 28 + len(message) must fit the payload.
+//@   label over-long-error-message-rejected
+//@   ensures istype(msg, *errorMessage) && 28 + len(msg.(*errorMessage).message) > len(f.Payload) ==> err != nil
+//@   label error-frame-size
+//@   ensures err == nil && istype(msg, *errorMessage) ==> f.Header.size == 16 + 28 + len(msg.(*errorMessage).message)
+//@   label error-frame-carries-message
+//@   ensures err == nil && istype(msg, *errorMessage) ==> be16(f.Payload, 26) == len(msg.(*errorMessage).message) &&
+//@             bytestr(f.Payload[28:28+len(msg.(*errorMessage).message)]) == msg.(*errorMessage).message
+//@   property C13 C20
 
 //@ func (f *Frame) read(msg message) (err error)
 //@   requires FrameFull(f) && msg != nil && f.Header.size >= 16
